@@ -452,6 +452,30 @@ def read_axes(ax):
     return out
 
 
+def prelude(f, case):
+    """history before the observed call: the same kind of plot was made before, by the plain call with default
+    arguments, for ANOTHER field on the same mesh (other values, complementary validity).  Plots are independent of
+    one another, so this must not change anything that is observed afterwards."""
+    try:
+        g = df.Field(f.mesh, nvdim=f.nvdim, value=(np.flip(f.array, axis=0) * 0.5 + 1.0).copy(), valid=~f.valid,
+                     vdims=f.vdims, vdim_mapping=f.vdim_mapping, unit=f.unit)
+        kind = case["kind"]
+        if kind == "default":
+            g.mpl()
+        elif kind == "scalar":
+            g.mpl.scalar()
+        elif kind == "contour":
+            g.mpl.contour()
+        elif kind == "vector":
+            g.mpl.vector()
+        elif kind == "lightness":
+            g.mpl.lightness()
+    except Exception:  # noqa: BLE001  (the plain call may not apply to this field: that is not what is observed here)
+        pass
+    finally:
+        plt.close("all")
+
+
 def call_plot(f, case, flt, aux, ax):
     kind = case["kind"]
     m = mult_value(case.get("mult"))
@@ -830,6 +854,9 @@ def run_impl(case):
         obs["tags"].append("mapping:" + ("none" if not f.vdim_mapping else "set"))
     snap = snapshot(f)
     snaps_aux = [(nm, g, snapshot(g)) for nm, g in (("filter_field", flt), ("colour / lightness field", aux)) if g is not None and g is not f]
+    if case["sub"] % 3 == 0:
+        prelude(f, case)
+        obs["tags"].append("history:plain-plot-of-another-field-before")
     ax = new_rec_axes() if case.get("ax") == "rec" else None
     exc = None
     try:
